@@ -523,7 +523,7 @@ class StopCont:
 # the REAL-lane scenario (runs in vmon.realchild)
 # --------------------------------------------------------------------------
 
-STALL = 15.0     # a call is hung when it has not returned and no worker logged anything for this long
+STALL = 30.0     # a call is hung when it has not returned and no worker logged anything for this long
 HARD = 200.0     # absolute cap per call
 
 
